@@ -3,12 +3,14 @@
 (* ExpectedResponse (TLC configuration files cannot hold records).           *)
 EXTENDS ExpectedResponse
 
-Sp(conn, cls, m1, m2) == [conn |-> conn, cls |-> cls, m1 |-> m1, m2 |-> m2, late |-> FALSE, ex |-> FALSE]
+Sp(conn, cls, m1, m2) == [conn |-> conn, cls |-> cls, m1 |-> m1, m2 |-> m2, late |-> FALSE, ex |-> FALSE, pl |-> FALSE]
 Ms(conn, cls, f1, f2) == [conn |-> conn, cls |-> cls, f1 |-> f1, f2 |-> f2]
 \* shapes for which the library has a command (commands.py): one literal, two literals, none;
 \* and the command whose first matcher is the ticket it generates in send()
 Ex(s) == [s EXCEPT !.ex = TRUE]
-Late(conn, cls, m2) == [conn |-> conn, cls |-> cls, m1 |-> "v1", m2 |-> m2, late |-> TRUE, ex |-> TRUE]
+Late(conn, cls, m2) == [conn |-> conn, cls |-> cls, m1 |-> "v1", m2 |-> m2, late |-> TRUE, ex |-> TRUE, pl |-> FALSE]
+\* the shape of the place-in-queue negotiation: a peer, the file name as literal
+Pl(s) == [s EXCEPT !.pl = TRUE]
 
 \* one connection, one class: what matters is the match matrix
 \*            (1,1)  (2,2)  (1,2)
@@ -27,6 +29,14 @@ SpecsG2 == {Ex(Sp("S", "A", "any", "any")), Ex(Sp("S", "A", "v1", "any"))}
 SpecsC == {Ex(Sp("S", "A", "any", "any")), Ex(Sp("S", "A", "v1", "any")), Sp("S", "A", "p1", "v2"), Late("P1", "B", "v1")}
 MsgsC  == {Ms("S", "A", 1, 1), Ms("S", "A", 2, 2), Ms("P1", "B", 1, 1)}
 
+\* timeouts on both sides of the library's 10 s, for server and peer waits
+SpecsT == {Sp("P1", "A", "v1", "any"), Sp("S", "A", "v1", "any")}
+MsgsT  == {Ms("P1", "A", 1, 1), Ms("S", "A", 1, 1)}
+
+\* the negotiation next to a plain wait for the same reply
+SpecsN == {Pl(Sp("P1", "A", "v1", "any")), Sp("P1", "A", "v1", "any")}
+MsgsN  == {Ms("P1", "A", 1, 1), Ms("P1", "A", 2, 1)}
+
 \* every spec against every message (1 caller, 1 message): the matching relation
 SpecsAll == {Sp(c, k, a, b) : c \in {"S", "P1"}, k \in {"A", "B"}, a \in {"any", "v1", "v2", "p1", "p2"},
                               b \in {"any", "v1", "v2", "p2"}}
@@ -40,7 +50,8 @@ MsgsP  == {Ms("P1", "A", 1, 1), Ms("P2", "A", 1, 2), Ms("P1", "B", 1, 1), Ms("P1
 SpecsSim == {Ex(Sp("S", "A", "any", "any")), Ex(Sp("S", "A", "v1", "any")), Ex(Sp("S", "A", "v2", "v2")),
              Sp("S", "A", "p1", "v2"), Sp("S", "A", "any", "v1"), Ex(Sp("S", "B", "v1", "any")),
              Ex(Sp("P1", "A", "any", "any")), Sp("P1", "A", "v1", "any"), Sp("P2", "A", "v1", "any"),
-             Sp("P1", "A", "p2", "v1"), Late("P1", "B", "v1"), Sp("P1", "B", "v1", "v1")}
+             Sp("P1", "A", "p2", "v1"), Late("P1", "B", "v1"), Sp("P1", "B", "v1", "v1"),
+             Pl(Sp("P1", "A", "v2", "any")), Pl(Sp("P2", "A", "v1", "any"))}
 MsgsSim  == {Ms("S", "A", 1, 1), Ms("S", "A", 2, 2), Ms("S", "A", 1, 2), Ms("S", "B", 1, 1),
              Ms("P1", "A", 1, 1), Ms("P1", "A", 2, 1), Ms("P2", "A", 1, 2), Ms("P1", "B", 1, 1), Ms("P1", "B", 2, 1)}
 
